@@ -1,7 +1,7 @@
 (* C17 — Ordinal suffixes are judged correctly for every number.
    This file pins the statements; it contains nothing but `exact` (+ non-vacuity Examples by vm_compute). *)
 Require Import Base Overlap Suggestion Tables_number Number NumberArith NumberLex NumberPasses NumberProofs.
-Require Import C17Tails C17TailsProofs C17Multi C17Texts C17MultiText C17Unreach.
+Require Import C17Tails C17TailsProofs C17Multi C17Texts C17MultiText C17Unreach C17Later C17LaterProofs.
 From Coq Require Import String.
 From Coq Require Import List NArith Bool.
 Import ListNotations.
@@ -393,6 +393,87 @@ Example C17_ex_list :
        mkmlint (mkspan 21 23) [ReplaceWith (txt "th")]]
   /\ lint_ascii (txt "3th 2st, 11th and 113rd, 0021ST.") = Ok (Some (mexpected 0 ex_list))
   /\ length (filter wrongb ex_list) = 3.
+Proof. vm_compute. repeat split; reflexivity. Qed.
+
+(* ================================================================================================
+   THE PASSES AFTER condense_dotted_initialisms (Model/C17Later.v: condense_ellipsis, condense_latin over the generic
+   condense_pattern / find_all_matches, the metadata loop; match_quotes and articles_imply_nouns are the identity on
+   this token abstraction and pinned verbatim by the translator).  The former hypothesis `numbers_preserved pp` is a
+   theorem about them: for EVERY source and EVERY token list, whenever they return, the Number tokens (kind, value,
+   suffix, span, order) are the ones they were given, hence the rule's report is unchanged.
+   ================================================================================================ *)
+Theorem C17_later_passes_numbers :
+  forall (src : text) (toks toks' : list token),
+  later_passes src toks = Ok toks' ->
+  filter is_number toks' = filter is_number toks /\ rule toks' = rule toks.
+Proof. exact later_passes_numbers. Qed.
+Check C17_later_passes_numbers :
+  forall (src : text) (toks toks' : list token),
+  later_passes src toks = Ok toks' ->
+  filter is_number toks' = filter is_number toks /\ rule toks' = rule toks.
+Print Assumptions C17_later_passes_numbers.
+
+(* `numbers_preserved` holds of the modelled later passes (as a total function: the list is kept when they panic), so
+   every theorem above that carries the hypothesis holds with pp := later_total and NO hypothesis on the passes *)
+Theorem C17_numbers_preserved_discharged :
+  numbers_preserved later_total
+  /\ (forall (U : uni) (ut : text -> nat) (et : text -> nat -> option nat), ascii_laws U ->
+      forall (l : list inst) (post : text), mctx_ok U l post = true ->
+      lint_text U ut et later_total (mtext l post) = Ok (Some (mexpected 0 l))).
+Proof. exact (conj later_total_preserves (fun U ut et HU => lint_list_thm U ut et later_total HU later_total_preserves)). Qed.
+Check C17_numbers_preserved_discharged :
+  numbers_preserved later_total
+  /\ (forall (U : uni) (ut : text -> nat) (et : text -> nat -> option nat), ascii_laws U ->
+      forall (l : list inst) (post : text), mctx_ok U l post = true ->
+      lint_text U ut et later_total (mtext l post) = Ok (Some (mexpected 0 l))).
+Print Assumptions C17_numbers_preserved_discharged.
+
+(* The list theorem over the WHOLE modelled Document::parse, panics of the later passes not hidden:
+   doc_final = lexer, the six passes of doc_tokens, then later_passes; lint_doc = the rule on it.  For a text in the
+   class: the first six passes do not panic; whatever document the later passes return has exactly the promised
+   Number tokens; and whenever lint_doc returns, it returns exactly the promised lints.  Only hypothesis: ascii_laws.
+   (Not claimed: that condense_latin / the metadata loop do not panic — they call Span::get_content on Word spans;
+   C17_ex_later shows lint_doc = Ok on a concrete in-class text on which both later passes fire.) *)
+Theorem C17_lint_list_doc :
+  forall (U : uni) (ut : text -> nat) (et : text -> nat -> option nat),
+  ascii_laws U ->
+  forall (l : list inst) (post : text),
+  mctx_ok U l post = true ->
+  (exists T, doc_tokens U ut et (mtext l post) = Ok T)
+  /\ (forall T', doc_final U ut et (mtext l post) = Ok T' -> filter is_number T' = mlist 0 l)
+  /\ (forall r, lint_doc U ut et (mtext l post) = Ok r -> r = Some (mexpected 0 l)).
+Proof. exact lint_list_doc_thm. Qed.
+Check C17_lint_list_doc :
+  forall (U : uni) (ut : text -> nat) (et : text -> nat -> option nat),
+  ascii_laws U ->
+  forall (l : list inst) (post : text),
+  mctx_ok U l post = true ->
+  (exists T, doc_tokens U ut et (mtext l post) = Ok T)
+  /\ (forall T', doc_final U ut et (mtext l post) = Ok T' -> filter is_number T' = mlist 0 l)
+  /\ (forall r, lint_doc U ut et (mtext l post) = Ok r -> r = Some (mexpected 0 l)).
+Print Assumptions C17_lint_list_doc.
+
+(* the generic condense_pattern / find_all_matches of C17Later.v, at the contraction matcher, IS the
+   condense_contractions of Number.v that all theorems above run *)
+Theorem C17_contractions_generic :
+  forall toks : list token, condense_contractions_g toks = condense_contractions toks.
+Proof. exact condense_contractions_generic. Qed.
+Check C17_contractions_generic :
+  forall toks : list token, condense_contractions_g toks = condense_contractions toks.
+Print Assumptions C17_contractions_generic.
+
+(* non-vacuity: `Smith et al. came 2st... etc. and 3rd.` is in the class; both later passes fire (21 tokens before,
+   15 after: `et al.` -> 1, `...` -> 1, `etc.` -> 1); the document is built and the one lint is reported *)
+Example C17_ex_later :
+  mtext ex_later (txt ".") = txt "Smith et al. came 2st... etc. and 3rd."
+  /\ mctx_ok ascii_uni ex_later (txt ".") = true
+  /\ (match doc_tokens ascii_uni no_tail_url no_tail_email (txt "Smith et al. came 2st... etc. and 3rd.") with
+      | Ok T => length T | Panic _ => 0 end) = 21
+  /\ (match doc_final ascii_uni no_tail_url no_tail_email (txt "Smith et al. came 2st... etc. and 3rd.") with
+      | Ok T => length T | Panic _ => 0 end) = 15
+  /\ lint_doc ascii_uni no_tail_url no_tail_email (txt "Smith et al. came 2st... etc. and 3rd.")
+     = Ok (Some [mkmlint (mkspan 19 21) [ReplaceWith (txt "nd")]])
+  /\ mexpected 0 ex_later = [mkmlint (mkspan 19 21) [ReplaceWith (txt "nd")]].
 Proof. vm_compute. repeat split; reflexivity. Qed.
 
 (* ================================================================================================
